@@ -161,14 +161,15 @@ def one_price_bar(F, S):
         except symex.Unsupported as e:
             S.bad("T5", "unrecognised", s, "UNRECOGNISED idiom while comparing the two input paths of %s: %s" % (s, e), loc(fb[0].span))
             continue
+        from terms import renumber_loops as rn
         diffs = []
-        ok, cx = equal(unbar(rb["ret"]), rs["ret"])
+        ok, cx = equal(rn(unbar(rb["ret"])), rn(rs["ret"]))
         if not ok:
             diffs.append(("output", show(unbar(rb["ret"]))[:140], show(rs["ret"])[:140]))
         for k in sorted(set(rb["heap"]) | set(rs["heap"])):
             if not k.startswith("self"):
                 continue
-            a, b = unbar(rb["heap"].get(k, ("pre", k))), rs["heap"].get(k, ("pre", k))
+            a, b = rn(unbar(rb["heap"].get(k, ("pre", k)))), rn(rs["heap"].get(k, ("pre", k)))
             ok, cx = equal(a, b)
             if not ok:
                 diffs.append((k, show(a)[:140], show(b)[:140]))
